@@ -25,6 +25,18 @@ Routes  : Q-syntax (generic @circuit function replaying the AST on Q) is built f
 Oracle  : every circuit, read through public attributes only, has the structure of the model
           program; circuits are pairwise == in both directions; the implicit wrapping follows
           the model; generated names are fresh and building never fails because of them.
+Clauses : <front end>-structure / -rejects          a front end builds something else / nothing
+          builder-subcircuit-count-lost             BlockBuilder.subcircuit(n) does not keep n
+          builder-subcircuit-default-count          BlockBuilder.subcircuit() is not `subcircuit 1`
+          implicit-wrap                             prepare_all/measure_all added when they must
+                                                    not be, or not added when they must
+          generated-name-collision                  a valid program with anonymous items fails to
+                                                    build, and builds once every item is named
+          generated-name-not-fresh, qsyntax-declarations, eq-asymmetric,
+          eq-false-on-equal-structure, eq-true-on-different-structure, eq-raises, non-termination
+Failing cases are reduced in the worker with the same greedy walk the runner uses (memoised per
+process; the memo only saves time), so a large failing family reaches the runner as a handful of
+distinct minimal programs instead of one shrink job per failing case.
 """
 import itertools
 import sys
@@ -605,7 +617,10 @@ class C17(Check):
         "numbers are compared by value; loops are 'loop c { ... }' (the only loop Q-syntax writes); the "
         "object-oriented builder is exercised in two styles (immediate evaluation passing objects on, "
         "unevaluated=True passing names); both must agree with the text",
-        "gate names g, h, prepare_all, measure_all; register size 2 (or 1 after shrinking); let values 1, 2, 0.5",
+        "gate names g, h, prepare_all, measure_all, each used with one arity (an untyped gate gets its arity "
+        "at first use in every front end); register size 2 (or 1 after shrinking); let values 1, 2, 0.5; "
+        "qubit indices and counts are in range, so every program of the space is a valid Jaqal program",
+        "every build runs under a deterministic fuel budget of 20000 + 4000 x (nodes + header items + 4)",
     )
 
     def bounds(self, tier):
